@@ -628,6 +628,51 @@ class Tab:
         if not nbad:
             self.ok("T12", n, "pentagon direction/face table (JK, IK slots) equals the home face of the neighbour in that direction; cwOffsetPent faces are faces the pentagon touches")
 
+    # ------------------------------------------------------------- T19
+    def T19(self):
+        """cwOffsetPent is derivable from where the pentagon sits on each of its faces.
+        In a face's own ijk frame the deleted wedge is the K wedge.  The part of the pentagon that lies on the face is the wedge
+        pointing from the pentagon (a face vertex, 2*U[v]) towards the face centre, i.e. the direction opposite to v.  If the K wedge is
+        the clockwise neighbour of that wedge the face is a "cw offset" face (leading-K cells are renamed by a cw rotation, across the
+        gap); if it is the counter-clockwise neighbour it must not be one; if it is neither, no leading-K cell occurs (dead)."""
+        bcd = self.T.get("baseCellData")
+        fb = self.T.get("faceIjkBaseCells")
+        U = self.unit()
+        f1, f2, ccw, cw = self.rot_maps()
+        opp = lambda d: f1(f1(f1(d)))
+        n = nbad = 0
+        for p in self.pentagons():
+            listed = {x for x in bcd[p][2] if x != -1}
+            must, mustnot = set(), set()
+            for f_ in range(len(fb)):
+                for d in range(1, 7):
+                    v = [2 * c for c in U[d]]
+                    if max(v) > 2 or not self.live(v):
+                        continue
+                    if fb[f_][v[0]][v[1]][v[2]][0] != p:
+                        continue
+                    inward = opp(d)
+                    if f2(inward) == K:
+                        must.add(f_)
+                    elif f1(inward) == K:
+                        mustnot.add(f_)
+            n += len(must) + len(mustnot)
+            for f_ in sorted(must - listed):
+                nbad += 1
+                self.bad("T19", "cwOffsetPent:%d:missing%d" % (p, f_), "pentagon %d sits at the J vertex of face %d (the K wedge is the clockwise neighbour of the wedge on that face), "
+                         "so face %d must be listed in baseCellData[%d].cwOffsetPent = %s" % (p, f_, f_, p, bcd[p][2]), self.T.where("baseCellData"))
+            for f_ in sorted(listed & mustnot):
+                nbad += 1
+                self.bad("T19", "cwOffsetPent:%d:wrong%d" % (p, f_), "baseCellData[%d].cwOffsetPent lists face %d, but on that face the pentagon sits at the I vertex (the K wedge is the "
+                         "counter-clockwise neighbour of the wedge on the face): leading-K cells there must be renamed by a ccw rotation" % (p, f_), self.T.where("baseCellData"))
+            for f_ in sorted(listed - must - mustnot):
+                nbad += 1
+                self.bad("T19", "cwOffsetPent:%d:stray%d" % (p, f_), "baseCellData[%d].cwOffsetPent lists face %d, on which the pentagon has no wedge adjacent to the K wedge" % (p, f_), self.T.where("baseCellData"))
+        if n < 36:
+            raise AnalysisBroken("T19: only %d (pentagon, face) pairs with a wedge adjacent to the K wedge found" % n)
+        if not nbad:
+            self.ok("T19", n, "for all 12 pentagons cwOffsetPent lists exactly the faces on which the pentagon sits at the vertex whose inward wedge has the K wedge as clockwise neighbour (derived from faceIjkBaseCells and _rotate60cw/ccw); %d (pentagon, face) pairs" % n)
+
     # ------------------------------------------------------------- T13
     def T13(self):
         hII = self.T.get("vertsCII", "_faceIjkToVerts")
@@ -849,7 +894,7 @@ def macro_values(cfg, repo=None):
     return floats, ints
 
 
-ALL = ["T1", "T2", "T3", "T4", "T5", "T6", "T7", "T8", "T9", "T10", "T11", "T12", "T13", "T14", "T15", "T16", "T17", "T18"]
+ALL = ["T1", "T2", "T3", "T4", "T5", "T6", "T7", "T8", "T9", "T10", "T11", "T12", "T13", "T14", "T15", "T16", "T17", "T18", "T19"]
 
 
 def run(ctx, m, cfg, rels, only_keys=None):
